@@ -237,13 +237,17 @@ pub fn read<R: std::io::Read>(
                     // In case, they are (invisible) attendee of the course ...
                     _ => {
                         invisible_course_participants[course_index].1 += 1;
-                        external_assignment_quality_info.add_assigned_choice_penalty(
-                            penalty_for_assigned_course_choice(
-                                course_index,
-                                &participant_course_data.choices,
-                                track_data,
-                            ),
-                        );
+                        // Like the optimized participants, participants without any (valid) course choice are not
+                        // considered in the quality
+                        if !participant_course_data.choices.is_empty() {
+                            external_assignment_quality_info.add_assigned_choice_penalty(
+                                penalty_for_assigned_course_choice(
+                                    course_index,
+                                    &participant_course_data.choices,
+                                    track_data,
+                                ),
+                            );
+                        }
                     }
                 };
                 courses[course_index]
